@@ -1,0 +1,26 @@
+//! Synchronisation facade.
+//!
+//! Normally this is a plain re-export of `std::sync`, `lazy_static!` and
+//! `std::thread::yield_now`, so the crate behaves exactly as if it imported them
+//! directly. With `--cfg sentinel_verif_sched` (verification builds only) the
+//! blocking primitives, atomics and lazy statics come from the `shuttle` runtime
+//! instead, which lets a deterministic scheduler interleave and replay threads.
+//! `Arc`/`Weak` always come from `std`.
+
+#[cfg(not(sentinel_verif_sched))]
+pub use lazy_static::lazy_static;
+#[cfg(not(sentinel_verif_sched))]
+pub use std::sync::*;
+#[cfg(not(sentinel_verif_sched))]
+pub use std::thread::yield_now;
+
+#[cfg(sentinel_verif_sched)]
+pub use shuttle::lazy_static;
+#[cfg(sentinel_verif_sched)]
+pub use shuttle::sync::{
+    atomic, Mutex, MutexGuard, Once, RwLock, RwLockReadGuard, RwLockWriteGuard,
+};
+#[cfg(sentinel_verif_sched)]
+pub use shuttle::thread::yield_now;
+#[cfg(sentinel_verif_sched)]
+pub use std::sync::{Arc, Weak};
